@@ -752,6 +752,10 @@ func (ctx Ctx) callExpr(s *ast.CallExpr) coq.Expr {
 	if isIdent(s.Fun, "uint8") {
 		return ctx.integerConversion(s, s.Args[0], 8)
 	}
+	// byte is an alias of uint8
+	if isIdent(s.Fun, "byte") {
+		return ctx.integerConversion(s, s.Args[0], 8)
+	}
 	if isIdent(s.Fun, "panic") {
 		msg := "oops"
 		if e, ok := s.Args[0].(*ast.BasicLit); ok {
